@@ -29,6 +29,9 @@ def usets(inst):
          u("LP", "Both", (T[0] + T[1]) / 2, (T[0] + T[1]) / 2, dt=dstep / 2), u("CW", "Cold", bot, bot)],
         # one header within 1 K of two generation levels that have different contributions
         [u("HP", "Hot", top, top), u("LPS", "Both", T[1], T[1], dt=dstep / 2), u("LPgen", "Cold", T[1] - 0.5, T[1] - 0.5, dt=0.0), u("CW", "Cold", bot, bot)],
+        # two levels per side that TIE on their supply temperature (an isothermal and a gliding one): whatever orders utilities by supply
+        # temperature has to stay consistent between the zones' lists and the site's accumulators
+        [u("Steam", "Hot", top, top), u("HotOil", "Hot", top, top - step), u("CW", "Cold", bot, bot + step), u("Brine", "Cold", bot, bot)],
     ]
 
 
@@ -41,7 +44,7 @@ def cases(tier, inst):
                 nb = max(part) + 1
                 if nb < 2 and n > 2:
                     continue                      # one-zone sites: once, with the smallest stream sets
-                for ui in range(5):
+                for ui in range(6):
                     forms = ["flat"]
                     if nb >= 2 and (ui in (0, 1, 3) if (tier == "thorough" or n == 2) else ui == 1 and nb == 3) and (n <= 3 or nb >= 3):
                         forms += ["tree2"]        # a site of two sub-sites, each of one or two process zones
@@ -57,7 +60,7 @@ def cases(tier, inst):
                         yield {"streams": ms, "part": list(part), "uset": ui, "form": "flat", "inst": list(inst), "optarget": True}
     # sites of realistic size: 9-30 streams dealt round-robin to three zones
     for ms in P.crowds(inst, 3, dts=(1,)):
-        for ui in range(5):
+        for ui in range(6):
             yield {"streams": ms, "part": [i % 3 for i in range(len(ms))], "uset": ui, "form": "flat", "inst": list(inst)}
         yield {"streams": ms, "part": [i % 3 for i in range(len(ms))], "uset": 1, "form": "tree2", "inst": list(inst)}
     # a bench-scale site (loads of 1e-4 .. 1e-3): every absolute threshold of the library is larger than what the zones draw
@@ -183,7 +186,7 @@ SUBCHECKS = {
         rule="case = stream multiset x partition into zones x utility set x label form (flat / nested / explicit tree / tree of two sub-sites); "
              "non-trivial = inter-zone recovery happens (TS < TZ) or both sides of the summed targets are non-zero; counted separately in stats",
         cases=cases, run=run,
-        bound=lambda t: ("2-3 streams over 12 stream types, <=3 zones, 5 utility sets" if t == "quick" else "2-4 streams over 18 types (latent incl.), <=4 zones, 5 utility sets, all label forms") + " + 7 sites of 9-30 streams in three zones + one-zone sites + sites of two sub-sites (explicit tree) + a bench-scale site + streams inside a <1 K sliver between a use and a generation level"
+        bound=lambda t: ("2-3 streams over 12 stream types, <=3 zones, 6 utility sets" if t == "quick" else "2-4 streams over 18 types (latent incl.), <=4 zones, 6 utility sets, all label forms") + " + 7 sites of 9-30 streams in three zones + one-zone sites + sites of two sub-sites (explicit tree) + a bench-scale site + streams inside a <1 K sliver between a use and a generation level"
         + " + same-name streams and unit-operation targeting variants",
     ),
 }
